@@ -186,6 +186,15 @@ func TestC15Lists(t *testing.T) {
 		if rapid.IntRange(0, 29).Draw(t, "pre") == 0 {
 			c.Pre = rapid.SampledFrom([]int{66000, 70000, 140000}).Draw(t, "preBytes")
 		}
+		if rapid.IntRange(0, 3).Draw(t, "raw") == 0 {
+			// an incomplete (or any) input split first, in every state the scanner can end in
+			head := rapid.SampledFrom([]string{"", "", "x", "a b", "a b ", "'q' ", "x'y'", "\"a\"b", "a\\ b"}).Draw(t, "rawHead")
+			if rapid.IntRange(0, 4).Draw(t, "rawAny") == 0 {
+				head = genStr.Draw(t, "rawStr")
+			}
+			tail := rapid.SampledFrom([]string{"\\", "\\", "'", "'z", "\"", "\"z", "\"z\\", "\"\\", "z\\", "'z'\\", "\"z\"\\", "\\\n", " \\", "#c", " #c\\", ""}).Draw(t, "rawTail")
+			c.Raw = toInts(head + tail)
+		}
 		return c
 	}, runQuote)
 }
@@ -517,6 +526,18 @@ func TestC16Rand(t *testing.T) {
 		var b []byte
 		if rapid.IntRange(0, 6).Draw(t, "escapes") == 0 {
 			b = genEscapes.Draw(t, "escapeHeavy")
+		} else if rapid.IntRange(0, 4).Draw(t, "segs") == 0 {
+			// segments: an atom (a separator, a line continuation, a quote, an
+			// escape, a letter) repeated 1..65 times - long runs of ONE kind of
+			// byte right after every kind of construct, where a bulk shortcut
+			// for runs would be taken in a state it is not valid in
+			for n := rapid.IntRange(2, 9).Draw(t, "nseg"); n > 0; n-- {
+				atom := rapid.SampledFrom([]string{" ", " ", "\t", "\n", " \t", "\\\n", "\\\n", "\\", "'", "\"", "\"", "a", "a", "\\a", "\\ ", "#", "\\\\", "$"}).Draw(t, "atom")
+				rep := rapid.SampledFrom([]int{1, 1, 1, 1, 2, 3, 7, 8, 9, 15, 16, 17, 31, 32, 33, 64, 65}).Draw(t, "atomRep")
+				for ; rep > 0; rep-- {
+					b = append(b, atom...)
+				}
+			}
 		} else {
 			b = rapid.SliceOfN(gb, 0, 40).Draw(t, "in")
 		}
